@@ -234,7 +234,16 @@ func HarnessC09DecoratorsRunHandlers() {
 		vrt.Assert(subA.subscribes == 0, "and has not subscribed the handler")
 	}
 	vrt.Assert(r.RunHandlers(ctx) == nil, "first (successful) RunHandlers")
-	r.AddHandler("B", "tb", subB, "out", pub, PassthroughHandler)
+	hB := r.AddHandler("B", "tb", subB, "out", pub, PassthroughHandler)
+	bRuns := 0
+	hB.AddMiddleware(func(h HandlerFunc) HandlerFunc { // a handler added to a running router has its own middlewares too
+		return func(m *Message) ([]*Message, error) {
+			mu.Lock()
+			bRuns++
+			mu.Unlock()
+			return h(m)
+		}
+	})
 	vrt.Assert(r.RunHandlers(ctx) == nil, "second RunHandlers starts the late handler")
 	vrt.Assert(r.RunHandlers(ctx) == nil, "a further RunHandlers changes nothing")
 	vrt.Assert(subA.subscribes == 1 && subB.subscribes == 1, "each handler subscribed once")
@@ -258,5 +267,8 @@ func HarnessC09DecoratorsRunHandlers() {
 		vrt.Assert(okP, "every publisher decorator acts exactly once on an outgoing message, in registration order, however often RunHandlers was called")
 		vrt.Assert(okS, "every subscriber decorator acts exactly once on an incoming message, in registration order")
 		vrt.Assert(len(pub.calls) == k+1, "the message reaches the real publisher once")
+		mu.Lock()
+		vrt.Assert(bRuns == k, "a handler added later runs its own handler-level middlewares, and only it does")
+		mu.Unlock()
 	}
 }
